@@ -18,7 +18,7 @@ import (
 
 const sec = int64(1_000_000_000)
 
-func c05Run(ctx *core.Ctx, in c05Input, gen func(r *runner) (op, bool)) c05Input {
+func c05Run(ctx *core.Ctx, in c05Input, gen func(r *runner) (op, bool)) (c05Input, bool) {
 	r := newRunner(in.T0)
 	if gen == nil {
 		for _, o := range in.Ops {
@@ -72,7 +72,7 @@ func c05Run(ctx *core.Ctx, in c05Input, gen func(r *runner) (op, bool)) c05Input
 	ctx.Sink.Count(fmt.Sprintf("script/wakes=%s", bucket(r.nWake)))
 	ctx.Sink.Count(fmt.Sprintf("script/job_starts=%s", bucket(r.nJobs)))
 	ctx.Sink.Add(c)
-	return in
+	return in, r.hung != "" || r.spinning
 }
 
 func bucket(n int) string {
@@ -421,11 +421,20 @@ func c05Gen(ctx *core.Ctx) {
 	// hx.NewRand(seed+1) is hx.NewRand(seed) advanced by one step; fork once through a MIXED output so
 	// that different seeds give unrelated streams (every choice still derives from ctx.R)
 	root := ctx.R.Fork().Fork()
+	nBad := 0
 	for i := 0; i < scripts; i++ {
 		r := root.Fork()
 		g := &genState{R: r, ctx: ctx, fam: everyFamilies[i%len(everyFamilies)], nOps: r.Range(12, 36),
 			t0: t0s[r.Intn(len(t0s))], blockAll: r.Chance(1, 4), actPlanned: r.Chance(1, 3)}
-		c05Run(ctx, c05Input{T0: g.t0}, g.next)
+		if _, bad := c05Run(ctx, c05Input{T0: g.t0}, g.next); bad {
+			// a script in which something that must happen did not (10 s deadlines) or the
+			// scheduler span: a few of them are verdict enough - do not spend the whole time
+			// budget waiting
+			if nBad++; nBad >= 3 {
+				ctx.Sink.Count("generation-cut-short-after-3-hung-scripts")
+				break
+			}
+		}
 	}
 }
 
